@@ -231,6 +231,15 @@ pub fn guarded<T>(f: impl FnOnce() -> T) -> Result<T, String> {
     }
 }
 
+/// Decode only (no re-encoding of the result): used where the input is not a canonical encoding.
+pub fn decode_type(key: &str, bytes: &[u8]) -> Outcome {
+    match guarded(|| decode_type_raw(key, bytes)) {
+        Ok(Ok((debug, rest))) => Outcome::Ok { debug, rest, reenc: vec![], re_eq: true, re_rest: 0, re_err: None, re_debug: String::new() },
+        Ok(Err(e)) => Outcome::Err(e),
+        Err(p) => Outcome::Panic(p),
+    }
+}
+
 pub fn run_type(key: &str, bytes: &[u8]) -> Outcome {
     match guarded(|| run_type_raw(key, bytes)) {
         Ok(o) => o,
